@@ -102,6 +102,10 @@ ImplMerge(attrs, i, acc) ==      \* acc: "none" | type | "error"
                    ELSE IF acc = "none" THEN new ELSE acc)
 ImplReprTy(attrs) == LET r == ImplMerge(attrs, 1, "none") IN IF r = "none" THEN "isize" ELSE r
 
+\* Extension beyond C12 (spec growth): what the error PRINTS - the rejected integer, as its type's Debug prints it, in
+\* backticks (reported as an extension mismatch, never as a C12 verdict)
+DocErrTemplate == "`{n}` does not correspond to a unit variant"
+
 (***************************************************************************)
 (* Properties of one enum                                                  *)
 (***************************************************************************)
